@@ -384,7 +384,7 @@ func c17Context() *types.XObject {
 	})
 }
 
-var isoMidnightRe = regexp.MustCompile(`(\d{4}-\d{2}-\d{2})T00:00:00(\.0+)?(Z|\+00:00)`)
+var isoMidnightRe = regexp.MustCompile(`(?i)(\d{4}-\d{2}-\d{2})T00:00:00(\.0+)?(Z|\+00:00)`)
 
 func c17Eval(env envs.Environment, ctx *types.XObject, tpl string) (string, bool) {
 	var out string
